@@ -90,6 +90,14 @@ fn request(u: &unimock::Unimock, which: OwnKind, x: u8, hold: &mut Vec<Box<dyn s
             }
             _ => (0, false),
         },
+        OwnKind::OptMulti => match u.own_opt_multi(x) {
+            Some(Err(t)) => {
+                let r = (t.id, t.intact());
+                hold.push(Box::new(t));
+                r
+            }
+            _ => (0, false),
+        },
         OwnKind::Vec => {
             let v = u.own_vec(x);
             let shape_ok = v.len() == 3 && matches!(v[0], Ok(n) if *n == 1) && v[1].is_err() && matches!(v[2], Ok(n) if *n == 3);
@@ -160,6 +168,7 @@ fn kind_of(sp: &Special) -> Option<(OwnKind, u32, bool)> {
         Special::OwnDeepOpt { id } => Some((OwnKind::DeepOpt, *id, true)),
         Special::OwnDeepPoll { id } => Some((OwnKind::DeepPoll, *id, true)),
         Special::OwnPollMulti { id, .. } => Some((OwnKind::PollMulti, *id, false)),
+        Special::OwnOptMulti { id, .. } => Some((OwnKind::OptMulti, *id, false)),
         _ => None,
     }
 }
@@ -182,6 +191,7 @@ pub fn gen_c12(base_seed: u64, batch: &str, run: u64, rng: &mut Rng) -> Scenario
         Special::OwnDeepOpt { id: 110 },
         Special::OwnDeepPoll { id: 111 },
         Special::OwnPollMulti { quant: *rng.pick(&[Quant::N(2), Quant::N(3), Quant::AtLeast(1), Quant::Unq]), id: 112 },
+        Special::OwnOptMulti { quant: *rng.pick(&[Quant::N(2), Quant::N(3), Quant::AtLeast(1), Quant::Unq]), id: 113 },
     ];
     // OwnMulti through some_call needs an explicit multi-use quantifier
     if let Special::OwnMulti { quant, each_call, .. } = &mut pool[1] {
@@ -341,7 +351,7 @@ pub fn check_c12(scn: &Scenario) -> Checked {
         } else {
             // repeated use: every delivery is a clone of the stored value; the stored value stays
             let mut bound = match sp {
-                Special::OwnMulti { quant, .. } | Special::OwnTup { quant, .. } | Special::OwnPollMulti { quant, .. } => match quant {
+                Special::OwnMulti { quant, .. } | Special::OwnTup { quant, .. } | Special::OwnPollMulti { quant, .. } | Special::OwnOptMulti { quant, .. } => match quant {
                     Quant::N(n) => Some(*n),
                     Quant::Once => Some(1),
                     _ => None,
